@@ -169,8 +169,8 @@ macro_rules! explorer {
                     // an accessor that panics (e.g. on the empty span of a fresh or exhausted lexer) is a
                     // disagreement with the source, not a crash of the explorer
                     std::panic::catch_unwind(std::panic::AssertUnwindSafe(|| match self {
-                        Node::A(l) => $bytes(l.slice()) == &b[s..e] && $bytes(l.remainder()) == &b[e..],
-                        Node::B(l) => $bytes(l.slice()) == &b[s..e] && $bytes(l.remainder()) == &b[e..],
+                        Node::A(l) => $bytes(l.slice()) == &b[s..e] && $bytes(l.remainder()) == &b[e..] && std::ptr::eq(l.source(), src),
+                        Node::B(l) => $bytes(l.slice()) == &b[s..e] && $bytes(l.remainder()) == &b[e..] && std::ptr::eq(l.source(), src),
                     }))
                     .unwrap_or(false)
                 }
@@ -536,6 +536,96 @@ pub enum RcTok {
     S,
 }
 
+/// morph between enums whose extras DIFFER IN TYPE (`Extras: Into<Extras2>`): a tally kept in a
+/// newtype on one side and a plain wider integer on the other
+#[derive(Debug, Clone, Default, PartialEq)]
+pub struct Tally(pub u16);
+impl From<Tally> for u64 {
+    fn from(t: Tally) -> u64 {
+        t.0 as u64 + 1_000_000
+    }
+}
+
+#[derive(Logos, Debug, Clone, PartialEq)]
+#[logos(extras = Tally)]
+#[logos(skip " +")]
+pub enum MA {
+    #[regex("[a-z]+", |lex| { lex.extras.0 += 1; })]
+    Word,
+    #[regex("[0-9]+")]
+    Num,
+    #[token("é")]
+    E,
+}
+
+#[derive(Logos, Debug, Clone, PartialEq)]
+#[logos(extras = u64)]
+pub enum MB {
+    #[regex("[a-z]", |lex| { lex.extras += 1; })]
+    Letter,
+    #[regex("[0-9 é]")]
+    Other,
+}
+
+/// every position of every source, ordinary and partial: after `morph` into an enum with another
+/// extras type the position is kept, the extras are exactly `Into::into` of the old ones, the mode
+/// is kept (the continuation equals a fresh lexer of the new enum in the same mode on the
+/// remainder) and `source()` is still the very same text
+fn morph_into_other_extras(rep: &mut Report) {
+    for source in ["", "ab 12", "ab é12 cd", "ab", "12 ab ", "é"] {
+        for partial in [false, true] {
+            for steps in 0..6 {
+                crate::tick(|| format!("morph into other extras, source {source:?}, {steps} steps"));
+                let mut lex: Lexer<MA> = if partial { Lexer::new_partial(source) } else { Lexer::new(source) };
+                let mut stop = false;
+                for _ in 0..steps {
+                    if lex.next().is_none() {
+                        stop = true;
+                    }
+                }
+                let (sp, ex) = (lex.span(), lex.extras.clone());
+                let m: Lexer<MB> = lex.clone().morph();
+                rep.count("transitions", 1);
+                let mut bad: Option<String> = None;
+                if m.span() != sp || m.extras != u64::from(ex.clone()) {
+                    bad = Some(format!("span {:?} -> {:?}, extras {:?} -> {} (Into gives {})", sp, m.span(), ex, m.extras, u64::from(ex.clone())));
+                } else if !std::ptr::eq(m.source(), source) || !std::ptr::eq(lex.source(), source) {
+                    bad = Some("source() is not the text the lexer was made over".into());
+                } else {
+                    let rest = &source[sp.end..];
+                    let mut f: Lexer<MB> = if partial { Lexer::partial_with_extras(rest, 0) } else { Lexer::with_extras(rest, 0) };
+                    let mut m2 = m.clone();
+                    for _ in 0..source.len() + 2 {
+                        let (a, b) = (m2.next(), f.next());
+                        let (sa, sb) = (m2.span(), f.span());
+                        if a != b || sa.start != sb.start + sp.end || sa.end != sb.end + sp.end || m2.extras != f.extras + u64::from(ex.clone()) {
+                            bad = Some(format!("after morph next() gives {a:?} at {sa:?} (extras {}), a fresh lexer of the target enum (partial={partial}) on the remainder gives {b:?} at {sb:?} (+{}) (extras {})", m2.extras, sp.end, f.extras));
+                            break;
+                        }
+                        if a.is_none() {
+                            break;
+                        }
+                    }
+                }
+                if let Some(detail) = bad {
+                    if rep.violations.len() < 10 {
+                        rep.violations.push(Violation {
+                            key: format!("MORPH/other-extras/{source}/{steps}/{partial}"),
+                            tag: "MORPH".into(),
+                            case: format!("morph MA (extras = Tally) -> MB (extras = u64), source {source:?}, {steps} x next(), partial={partial}"),
+                            detail,
+                            replay: serde_json::json!({"kind": "vderive", "prop": "C14", "tag": "MORPH"}),
+                        });
+                    }
+                }
+                if stop {
+                    break;
+                }
+            }
+        }
+    }
+}
+
 /// extras that own something: every clone (of the lexer, of the spanned iterator) holds its own
 /// reference, taken without touching the original's
 fn owned_extras(rep: &mut Report) {
@@ -604,6 +694,7 @@ pub fn run(tier: &str, rep: &mut Report) {
         rep.count("programs", 1);
     }
     owned_extras(rep);
+    morph_into_other_extras(rep);
     let t = rep.counts.get("transitions").copied().unwrap_or(0);
     rep.count("traces_validated_against_impl", t);
     rep.samples.push(serde_json::json!({"source": "éa€b", "pair": "SA/SB", "example_history": ["next", "morph", "next", "bump(1)", "clone", "spanned"]}));
